@@ -59,6 +59,29 @@ func runC14(c *Ctx) {
 // (pending output = concat(vec) ++ buf[bufOffset:]); shared by C14, C02, C04 and C09.
 func ruleWriterInvariant(c *Ctx, p *core.Program, prefix string) {
 	cfg := p.Cfg.Name
+	// field roles by type, not by name: the vector is the net.Buffers field, the staging buffer the
+	// *Buffer field, the offset the int field
+	fVec, fOff, fBuf := "", "", ""
+	if wn := p.NamedType(core.PkgProto, "Writer"); wn != nil {
+		if st, ok := wn.Underlying().(*types.Struct); ok {
+			for i := 0; i < st.NumFields(); i++ {
+				f := st.Field(i)
+				switch {
+				case core.IsNamed(f.Type(), "net", "Buffers"):
+					fVec = f.Name()
+				case isBufferPtr(f.Type()):
+					fBuf = f.Name()
+				default:
+					if b, ok := f.Type().Underlying().(*types.Basic); ok && b.Kind() == types.Int {
+						fOff = f.Name()
+					}
+				}
+			}
+		}
+	}
+	if !c.must(p, "proto.Writer fields (net.Buffers vector, *Buffer staging buffer, int offset)", fVec != "" && fOff != "" && fBuf != "") {
+		return
+	}
 	get := func(name string) *ssa.Function {
 		fn := p.Method(core.PkgProto, "Writer", name)
 		c.must(p, "(*proto.Writer)."+name, fn != nil)
@@ -75,7 +98,7 @@ func ruleWriterInvariant(c *Ctx, p *core.Program, prefix string) {
 	c.R.Rule(rule, "ChainWrite cuts the staging buffer into the vector before it appends the caller's slice, so earlier ChainBuffer output precedes it")
 	func() {
 		cuts := core.FindCalls(chainWrite, isWriterMethod("cutBuffer"))
-		vs := storesTo(chainWrite, "vec")
+		vs := storesTo(chainWrite, fVec)
 		if len(cuts) != 1 || len(vs) != 1 {
 			c.R.Bad(rule, core.FuncName(chainWrite), cfg, p.Pos(chainWrite.Pos()), sprintf("%d cutBuffer calls, %d stores to vec", len(cuts), len(vs)))
 			return
@@ -88,7 +111,7 @@ func ruleWriterInvariant(c *Ctx, p *core.Program, prefix string) {
 		ap, ok := vs[0].Val.(*ssa.Call)
 		good := false
 		if ok {
-			if bi, ok := ap.Call.Value.(*ssa.Builtin); ok && bi.Name() == "append" && core.FieldOrigin(ap.Call.Args[0], 0) == "Writer.vec" {
+			if bi, ok := ap.Call.Value.(*ssa.Builtin); ok && bi.Name() == "append" && core.FieldOrigin(ap.Call.Args[0], 0) == "Writer."+fVec {
 				for _, e := range variadicElems(ap.Call.Args[1]) {
 					if pr, ok := e.(*ssa.Parameter); ok && pr.Name() == "data" {
 						good = true
@@ -107,8 +130,8 @@ func ruleWriterInvariant(c *Ctx, p *core.Program, prefix string) {
 	rule = prefix + ".cut"
 	c.R.Rule(rule, "cutBuffer appends exactly buf[bufOffset:len(buf)] to the vector and advances bufOffset to that length on every path on which it appends (an empty tail appends nothing)")
 	func() {
-		vs := storesTo(cut, "vec")
-		os := storesTo(cut, "bufOffset")
+		vs := storesTo(cut, fVec)
+		os := storesTo(cut, fOff)
 		if len(vs) != 1 || len(os) != 1 {
 			c.R.Bad(rule, core.FuncName(cut), cfg, p.Pos(cut.Pos()), sprintf("%d stores to vec and %d to bufOffset in cutBuffer (expected one each): the tail is emitted twice or never marked as emitted", len(vs), len(os)))
 			return
@@ -140,7 +163,7 @@ func ruleWriterInvariant(c *Ctx, p *core.Program, prefix string) {
 		switch {
 		case core.FieldOrigin(sl.X, 0) != "Buffer.Buf":
 			c.R.Bad(rule, core.FuncName(cut), cfg, p.Pos(sl.Pos()), "the cut is not taken from the staging buffer")
-		case sl.Low == nil || core.FieldOrigin(sl.Low, 0) != "Writer.bufOffset":
+		case sl.Low == nil || core.FieldOrigin(sl.Low, 0) != "Writer."+fOff:
 			c.R.Bad(rule, core.FuncName(cut), cfg, p.Pos(sl.Pos()), "the cut does not start at bufOffset: bytes are emitted twice or skipped")
 		case sl.High != nil && !isLenBuf(sl.High):
 			c.R.Bad(rule, core.FuncName(cut), cfg, p.Pos(sl.Pos()), "the cut does not end at the current length of the staging buffer")
@@ -192,14 +215,14 @@ func ruleWriterInvariant(c *Ctx, p *core.Program, prefix string) {
 	c.R.Rule(rule, "reset clears all three parts of the pending output: bufOffset = 0, the staging buffer (Buffer.Reset) and the vector (length 0)")
 	func() {
 		okOff := false
-		for _, s := range storesTo(reset, "bufOffset") {
+		for _, s := range storesTo(reset, fOff) {
 			if v, ok := core.ConstInt(s.Val); ok && v == 0 {
 				okOff = true
 			}
 		}
 		okBuf := len(core.FindCalls(reset, func(f *types.Func) bool { return core.IsMethod(f, core.PkgProto, "Buffer", "Reset") })) > 0
 		okVec := false
-		for _, s := range storesTo(reset, "vec") {
+		for _, s := range storesTo(reset, fVec) {
 			if sl, ok := s.Val.(*ssa.Slice); ok && sl.High != nil {
 				if v, ok := core.ConstInt(sl.High); ok && v == 0 {
 					okVec = true
@@ -235,7 +258,7 @@ func ruleWriterInvariant(c *Ctx, p *core.Program, prefix string) {
 						continue
 					}
 					f, ok := writerField(ai)
-					if !ok || (f != "bufOffset" && f != "vec" && f != "buf") {
+					if !ok || (f != fOff && f != fVec && f != fBuf) {
 						continue
 					}
 					n++
